@@ -25,6 +25,8 @@ class MacroDef:
     def __init__(self, index: int, base: str, ns: List[str], params: List[str], locals_: List[str]):
         self.index, self.base, self.ns, self.params, self.locals = index, base, ns, params, locals_
         self.globals_used: List[str] = []       # full names of global labels referenced (declared after '<')
+        self.extern: Optional[str] = None       # base name of a '>' extern label this macro declares (such a macro is expanded once)
+        self.label_param = False                # parameter 0 is DECLARED as a label in the body (argument must be a bare name)
         self.body: List[Dict[str, Any]] = []
         self.def_line = 0
         self.file = ''
@@ -89,7 +91,29 @@ class Gen:
             if any(m.full == '.'.join(ns + [base]) and len(m.params) == n_params for m in self.macros):
                 base = base + str(k)
             self.macros.append(MacroDef(k, base, ns, params, locals_))
+        # special macros, only ever called from the top level: one declaring an extern label, one declaring its first parameter
+        self.special_calls: List[Tuple[MacroDef, Optional[str]]] = []
+        if rng.random() < 0.5:
+            ns = [] if rng.random() < 0.5 else [rng.choice(NS_NAMES)]
+            m = MacroDef(len(self.macros), 'ex', ns, rng.sample(POOL, rng.choice([0, 1])), [])
+            m.extern = rng.choice(['e0', 'ext', 'a_e'])
+            self.macros.append(m)
+            self.globals.append((m.extern, ns))
+            self.special_calls.append((m, None))
+            self.feature('extern-label-macros')
+        if rng.random() < 0.5:
+            ns = [] if rng.random() < 0.5 else [rng.choice(NS_NAMES)]
+            names = rng.sample(POOL, rng.choice([1, 2]))
+            m = MacroDef(len(self.macros), 'lp', ns, names, [])
+            m.label_param = True
+            self.macros.append(m)
+            for k in range(rng.choice([1, 2])):
+                fresh = f'fr{k}'
+                self.globals.append((fresh, []))
+                self.special_calls.append((m, fresh))
+            self.feature('label-parameter-macros')
         # global labels (some spelled like parameters / iterators), constants
+        self.declared_by_macros = list(self.globals)
         for _ in range(rng.choice([1, 2, 3, 4])):
             base = rng.choice(POOL + ['t', 'u'])
             ns = [] if rng.random() < 0.6 else [rng.choice(NS_NAMES)]
@@ -105,6 +129,8 @@ class Gen:
         out = []
         for base, ns in self.globals:
             full = '.'.join(ns + [base])
+            if m is not None and m.extern is not None and base == m.extern:
+                continue
             if m is not None and base in m.params + m.locals:
                 continue  # a global whose base name equals one of the macro's own names is shadowed inside it (directly, or
                 #          through the namespace alias of parameters) and cannot be referenced from this macro
@@ -117,7 +143,13 @@ class Gen:
         leaves += [('const', k) for k in self.consts]
         leaves += self.global_leaves_for(m)
         declared = set()
-        callees = [c for c in self.macros if c.index > m.index]
+        callees = [c for c in self.macros if c.index > m.index and c.extern is None and not c.label_param]
+        if m.extern is not None:
+            m.body.append({'kind': 'externlabel', 'name': m.extern})
+            m.body.append(self.op_stmt(leaves))
+        if m.label_param:
+            m.body.append({'kind': 'paramlabel'})
+            m.body.append(self.op_stmt(leaves))
         n_stmts = rng.choice([1, 2, 3, 4, 5])
         for _ in range(n_stmts):
             undeclared = [name for name in m.locals if name not in declared]
@@ -209,24 +241,40 @@ class Gen:
         rng = self.rng
         leaves: List[Any] = [('global', '.'.join(ns + [base])) for base, ns in self.globals] + [('const', k) for k in self.consts]
         items: List[Dict[str, Any]] = [{'kind': 'op', 'form': ';j', 'exprs': [], 'flip': None, 'jump': ('lit', 4 * self.w)}]
-        pending = list(self.globals)
+        pending = [g for g in self.globals if g not in self.declared_by_macros]
         rng.shuffle(pending)
+        specials = list(self.special_calls)
         for _ in range(rng.choice([3, 5, 8])):
             r = rng.random()
             if pending and r < 0.35:
                 base, ns = pending.pop()
                 items.append({'kind': 'glabel', 'base': base, 'ns': ns})
                 items.append(self.op_stmt(leaves))
+            elif specials and r < 0.5:
+                items.append(self.special_call(specials.pop(), leaves))
             elif r < 0.7:
-                items.append(self.call_stmt(rng.choice(self.macros), leaves, None))
+                items.append(self.call_stmt(rng.choice(self.ordinary_macros()), leaves, None))
             elif r < 0.82:
-                items.append(self.rep_stmt(rng.choice(self.macros), leaves, None))
+                items.append(self.rep_stmt(rng.choice(self.ordinary_macros()), leaves, None))
             else:
                 items.append(self.op_stmt(leaves))
         for base, ns in pending:
             items.append({'kind': 'glabel', 'base': base, 'ns': ns})
             items.append(self.op_stmt(leaves))
+        for special in specials:
+            items.append(self.special_call(special, leaves))
         self.top = items
+
+    def ordinary_macros(self) -> List[MacroDef]:
+        return [m for m in self.macros if m.extern is None and not m.label_param]
+
+    def special_call(self, special: Tuple[MacroDef, Optional[str]], leaves: List[Any]) -> Dict[str, Any]:
+        callee, fresh = special
+        args = [self.expr(leaves) for _ in callee.params]
+        if fresh is not None:
+            args[0] = ('name', ('global', fresh))   # a bare name: the callee declares it as a label
+        self.feature('calls')
+        return {'kind': 'call', 'callee': callee.index, 'args': args, 'exprs': args}
 
     # ------------------------------------------------------------------ rendering the macro program
     def spell(self, leaf: Any, m: Optional[MacroDef], cur_ns: List[str]) -> str:
@@ -270,6 +318,11 @@ class Gen:
             return f'{indent}{f};{j}'
         if st['kind'] == 'label':
             return f'{indent}{st["name"]}:'
+        if st['kind'] == 'externlabel':
+            return f'{indent}{st["name"]}:'
+        if st['kind'] == 'paramlabel':
+            assert m is not None
+            return f'{indent}{m.params[0]}:'
         if st['kind'] == 'pad':
             return f'{indent}pad {st["n"]}'
         if st['kind'] == 'wflip':
@@ -298,6 +351,8 @@ class Gen:
             header += ' @ ' + ', '.join(m.locals)
         if m.globals_used:
             header += ' < ' + ', '.join(self.spell(('global', g), m, m.ns) for g in m.globals_used)
+        if m.extern is not None:
+            header += ' > ' + m.extern
         lines.append(header + ' {')
         m.def_line, m.file = len(lines), short
         for st in m.body:
@@ -391,6 +446,16 @@ class Gen:
                 f = f'(({self.inline_expr(st["flip"], env)}) & {mask})' if st['flip'] is not None else ''
                 j = f'(({self.inline_expr(st["jump"], env)}) & {mask})' if st['jump'] is not None else ''
                 out.append(f'{f};{j}')
+            elif kind == 'externlabel':
+                assert m is not None
+                full = '.'.join(m.ns + [st['name']])
+                unique = 'G_' + full.replace('.', '_')
+                out.append(f'{unique}:')
+                self.out.expected_labels[full] = unique
+            elif kind == 'paramlabel':
+                unique = env[('param', 0)].strip('()')   # the argument is a bare global name
+                out.append(f'{unique}:')
+                self.out.expected_labels[unique[2:]] = unique
             elif kind == 'pad':
                 out.append(f'pad {st["n"]}')
             elif kind == 'wflip':
